@@ -139,4 +139,277 @@ Section Buffer.
           destruct (str_go a b c d e f g); cbn [length] in *; auto; try lia
       end.
   Qed.
+
+  (* ---- consumeIdent -------------------------------------------------------------------------- *)
+  Lemma in_range_0 lo hi : lo <> 0%N -> in_range lo hi 0 = false.
+  Proof. intro H. unfold in_range. destruct (N.leb_spec lo 0); [lia|reflexivity]. Qed.
+
+  Lemma decode_width x rn w :
+    decode_rune (x ++ [0%N; 0%N]) = (rn, w) -> x <> [] -> 1 <= w <= length x.
+  Proof.
+    intros H Hx.
+    destruct x as [|b0 [|b1 [|b2 [|b3 x]]]]; [congruence| | | |];
+      cbn [app decode_rune] in H; cbv zeta in H;
+      destruct (b0 =? 224)%N, (b0 =? 237)%N, (b0 =? 240)%N, (b0 =? 244)%N;
+      rewrite ?in_range_0 in H by (intro; discriminate);
+      rewrite ?Bool.andb_false_r in H; cbn [andb] in H;
+      repeat match type of H with context[if ?c then _ else _] => destruct c end;
+      injection H as <- <-; cbn [length]; lia.
+  Qed.
+
+  Lemma ident_go_spec g : forall x acc m, length x < g ->
+    match ident_go isld g (x ++ [0%N; 0%N]) acc m with
+    | IInternal => False
+    | IDone _ m' => m <= m' <= m + length x
+    | IErr => True
+    end.
+  Proof.
+    induction g as [|g IH]; intros x acc m Hg; [lia|].
+    destruct x as [|c x].
+    - cbn. lia.
+    - cbn [app ident_go].
+      destruct (128 <=? c)%N.
+      + destruct (decode_rune (c :: x ++ [0%N; 0%N])) as (rn, w) eqn:E.
+        apply (decode_width (c :: x)) in E; [|congruence].
+        destruct (isld rn); auto.
+        change (c :: x ++ [0%N; 0%N]) with ((c :: x) ++ [0%N; 0%N]).
+        rewrite skipn_app. replace (w - length (c :: x)) with 0 by lia. cbn [skipn].
+        specialize (IH (skipn w (c :: x)) (rev (firstn w ((c :: x) ++ [0%N; 0%N])) ++ acc) (m + w)).
+        rewrite skipn_length in IH.
+        destruct (ident_go isld g _ _ (m + w)); auto; cbn [length] in *; lia.
+      + destruct (c =? 32)%N; [cbn [length]; lia|].
+        destruct (ident_char c); [|cbn [length]; lia].
+        specialize (IH x (c :: acc) (S m)). cbn [length] in Hg.
+        destruct (ident_go isld g (x ++ [0%N; 0%N]) (c :: acc) (S m)); auto; cbn [length]; lia.
+  Qed.
+
+  Lemma ident_first c x g acc m' :
+    ident_start c = true -> length x < g ->
+    ident_go isld (S g) ((c :: x) ++ [0%N; 0%N]) [] 0 = IDone acc m' -> 1 <= m'.
+  Proof.
+    intros Hs Hg. cbn [app ident_go].
+    destruct (128 <=? c)%N eqn:E128.
+    - destruct (decode_rune (c :: x ++ [0%N; 0%N])) as (rn, w) eqn:E.
+      apply (decode_width (c :: x)) in E; [|congruence].
+      destruct (isld rn); [|discriminate].
+      change (c :: x ++ [0%N; 0%N]) with ((c :: x) ++ [0%N; 0%N]).
+      rewrite skipn_app. replace (w - length (c :: x)) with 0 by lia. cbn [skipn].
+      pose proof (ident_go_spec g (skipn w (c :: x)) (rev (firstn w ((c :: x) ++ [0%N; 0%N])) ++ []) (0 + w)) as H.
+      rewrite skipn_length in H. cbn [length] in *.
+      intro H1. rewrite H1 in H. lia.
+    - destruct (c =? 32)%N eqn:E32.
+      { apply N.eqb_eq in E32. subst c. discriminate. }
+      destruct (ident_char c) eqn:Eic.
+      + pose proof (ident_go_spec g x [c] 1 Hg) as H. intro H1. rewrite H1 in H. lia.
+      + exfalso. unfold ident_start in Hs. rewrite E128, Bool.orb_false_r in Hs.
+        assert (ident_char c = true); [|congruence].
+        apply consume_ident_cases_ok.
+        destruct (is_lower c), (is_upper c), (c =? 95)%N; cbn in *; try discriminate; auto using Bool.orb_true_r.
+  Qed.
+
+  (* ---- indentation stack ----------------------------------------------------------------------- *)
+  Lemma pop_indents_spec ind l : forall un,
+    exists l' un', pop_indents ind (l ++ [0]) un = Some (l' ++ [0], un') /\ un' + length l' = un + length l.
+  Proof.
+    induction l as [|top l IH]; intro un; cbn [app pop_indents].
+    - exists [], un. split; [reflexivity|lia].
+    - destruct (ind <? top).
+      + destruct (IH (S un)) as (l' & un' & -> & H). exists l', un'. split; [reflexivity|cbn [length]; lia].
+      + exists (top :: l), un. split; [reflexivity|lia].
+  Qed.
+
+  (* ---- one activation of nextToken --------------------------------------------------------------- *)
+  (* the measure that bounds the number of tokens: every token consumes a byte or a pending unindent *)
+  Definition M (st : lstate) : nat := 2 * (n + 2 - pos st) + unind st + length (indents st).
+
+  (* pos never passes the second sentinel; the indentation stack always has the bottom 0; unindents
+     are only pending while the position is inside the data *)
+  Definition Inv (st : lstate) : Prop :=
+    pos st <= S n /\ (exists l, indents st = l ++ [0]) /\ (pos st <= n \/ unind st = 0).
+
+  Definition Post (st : lstate) (r : lres) : Prop :=
+    match r with
+    | LTok t st' =>
+        pos st' <= n + 2 /\ (exists l, indents st' = l ++ [0]) /\
+        (ttype t <> TEOF -> pos st' <= n) /\
+        (ttype t = TEOF -> tval t = [] /\ unind st' = 0) /\
+        (pos st <= n -> pos st' <= S n) /\ M st' < M st
+    | LErr _ => True
+    | LInternal | LDeep => False
+    end.
+
+  Definition StepPost (st : lstate) (a : action) : Prop :=
+    match a with
+    | ARet r => Post st r
+    | ARec st' => Inv st' /\ pos st < pos st' /\ pos st' <= n /\ M st' < M st
+    end.
+
+  Ltac neof := cbn [ttype tok1]; unfold TEOF, TIdent, TInt, TString, TLexOperator, TEOL, TUnindent; lia.
+
+  Lemma Post_adv st t st' :
+    Inv st -> pos st < pos st' -> pos st' <= n -> ttype t <> TEOF ->
+    unind st' = unind st -> indents st' = indents st -> Post st (LTok t st').
+  Proof.
+    intros (H1 & (l & H2) & H3) Hlt Hle Ht Hu Hi. unfold Post, M. rewrite Hu, Hi.
+    repeat split; try lia; eauto; intro; contradiction.
+  Qed.
+
+  Lemma consume_integer_ok st init p0 p :
+    Inv st -> pos st < p -> p <= n -> Post st (consume_integer B init p0 p st).
+  Proof.
+    intros HI Hlt Hle. unfold consume_integer.
+    destruct (B_scan is_digit p eq_refl) as (k & -> & _ & Hk); [lia|].
+    apply Post_adv; auto; cbn [pos set_pos unind indents]; try lia. neof.
+  Qed.
+
+  Lemma consume_string_ok st q p0 p raw fstr :
+    Inv st -> pos st < p -> p <= n -> q <> 0%N -> Post st (consume_string B q p0 p raw fstr st).
+  Proof.
+    intros HI Hlt Hle Hq. unfold consume_string.
+    destruct (B_some p) as (c1 & Hc1); [lia|]. rewrite Hc1.
+    assert (Hmulti : exists multi,
+      (if (c1 =? q)%N then match byte_at B (S p) with None => None | Some c2 => Some (c2 =? q)%N end else Some false) = Some multi
+      /\ (multi = true -> S (S p) <= n)).
+    { destruct (c1 =? q)%N eqn:E1; [|exists false; split; [reflexivity|discriminate]].
+      apply N.eqb_eq in E1. subst c1. pose proof (B_nz _ _ Hc1 Hq).
+      destruct (B_some (S p)) as (c2 & Hc2); [lia|]. rewrite Hc2. exists (c2 =? q)%N. split; auto.
+      intro E2. apply N.eqb_eq in E2. subst c2. pose proof (B_nz _ _ Hc2 Hq). lia. }
+    destruct Hmulti as (multi & -> & Hm).
+    set (p' := if multi then S (S p) else p).
+    assert (Hp' : p <= p' /\ p' <= n) by (destruct multi; subst p'; [specialize (Hm eq_refl)|]; lia).
+    rewrite (B_skipn p') by lia.
+    pose proof (str_go_spec (skipn p' b) q multi raw false [] 0 Hq) as H.
+    destruct (str_go q multi raw false (skipn p' b ++ [0%N; 0%N]) [] 0); auto.
+    rewrite skipn_length in H. fold n in H.
+    apply Post_adv; auto; cbn [pos set_pos unind indents]; try lia. neof.
+  Qed.
+
+  Lemma consume_ident_ok st p0 c :
+    Inv st -> pos st <= p0 -> byte_at B p0 = Some c -> ident_start c = true ->
+    Post st (consume_ident isld B p0 st).
+  Proof.
+    intros HI Hle Hc Hs. unfold consume_ident.
+    assert (Hc0 : c <> 0%N) by (intros ->; discriminate).
+    pose proof (B_nz _ _ Hc Hc0) as Hlt.
+    rewrite (B_skipn p0) by lia.
+    destruct (skipn_head b p0 c) as (x & Hx).
+    { unfold byte_at, B in Hc. rewrite nth_error_app1 in Hc; auto. }
+    assert (Hlen : length (skipn p0 b) = n - p0) by (rewrite skipn_length; reflexivity).
+    rewrite Hx in *. cbn [length] in Hlen.
+    rewrite app_length. cbn [length].
+    pose proof (ident_go_spec (S (S (length x) + 2)) (c :: x) [] 0) as H. cbn [length] in H.
+    destruct (ident_go isld (S (S (length x) + 2)) ((c :: x) ++ [0%N; 0%N]) [] 0) eqn:E; auto; [|apply H; lia].
+    apply ident_first in E; auto; [|lia].
+    apply Post_adv; auto; cbn [pos set_pos unind indents]; try lia. neof.
+  Qed.
+
+  Lemma token_step_ok st : Inv st -> StepPost st (token_step isld B st).
+  Proof.
+    intros HI. pose proof HI as (Hpos & (l & Hl) & Hun). unfold token_step.
+    destruct (B_scan is_space (pos st) eq_refl Hpos) as (k0 & Hk0 & Hp0 & Hp0').
+    rewrite Hk0. cbv beta zeta.
+    remember (pos st + k0) as p0 eqn:Ep0.
+    destruct (0 <? unind st) eqn:Eun.
+    { apply Nat.ltb_lt in Eun. assert (pos st <= n) by lia.
+      cbn [StepPost Post]. unfold M. cbn [pos indents unind ttype tval].
+      repeat split; try lia; eauto; intro HH; try (exfalso; revert HH; neof). }
+    apply Nat.ltb_ge in Eun.
+    destruct (B_some p0) as (next & Hnext); [lia|]. rewrite Hnext.
+    assert (Hpre : forall c, c <> 0%N -> exists r,
+      (if (next =? c)%N then match byte_at B (S p0) with None => None | Some b1 => Some (is_quote b1) end else Some false) = Some r
+      /\ (r = true -> exists b1, byte_at B (S p0) = Some b1 /\ is_quote b1 = true /\ S p0 <= n)).
+    { intros c Hc. destruct (next =? c)%N eqn:E; [|exists false; split; [reflexivity|discriminate]].
+      apply N.eqb_eq in E. subst c. pose proof (B_nz _ _ Hnext Hc).
+      destruct (B_some (S p0)) as (b1 & Hb1); [lia|]. rewrite Hb1. exists (is_quote b1). split; eauto.
+      intro. exists b1. repeat split; auto; lia. }
+    destruct (Hpre 114%N) as (raw & -> & Hraw); [discriminate|].
+    destruct (Hpre 102%N) as (fstr & -> & Hfstr); [discriminate|]. clear Hpre.
+    destruct (negb (raw || fstr) && ident_start next) eqn:Eid.
+    { apply andb_true_iff in Eid as (_ & Hs). cbn [StepPost].
+      apply (consume_ident_ok st p0 next); auto; lia. }
+    assert (Hp1 : exists p1 c, (if raw || fstr then S p0 else p0) = p1 /\ byte_at B p1 = Some c /\
+                               p0 <= p1 /\ p1 <= S n /\ (pos st <= n -> p1 <= n)).
+    { destruct (raw || fstr) eqn:Erf.
+      - assert (Hq : exists b1, byte_at B (S p0) = Some b1 /\ is_quote b1 = true /\ S p0 <= n).
+        { apply orb_true_iff in Erf as [E|E]; [apply Hraw|apply Hfstr]; exact E. }
+        destruct Hq as (b1 & Hb1 & _ & Hle). exists (S p0), b1. repeat split; auto; lia.
+      - exists p0, next. repeat split; auto; lia. }
+    destruct Hp1 as (p1 & c & -> & Hc & Hp01 & Hp1n & Hp1n'). rewrite Hc. clear Eid Hraw Hfstr.
+    destruct (c =? 0)%N eqn:Ec0.
+    { cbn [StepPost Post]. unfold M. cbn [pos set_pos indents unind ttype tval].
+      repeat split; try lia; eauto. intro HH. exfalso. apply HH. reflexivity. }
+    apply N.eqb_neq in Ec0. pose proof (B_nz _ _ Hc Ec0) as Hp1lt.
+    destruct (B_some (S p1)) as (b2 & Hb2); [lia|]. rewrite ?Hb2.
+    assert (Hb2' : b2 <> 0%N -> S (S p1) <= n) by (intro Hz; pose proof (B_nz _ _ Hb2 Hz); lia).
+    (* the states reached by consuming up to some position inside the data *)
+    assert (Hrec : forall p', pos st < p' -> p' <= n -> StepPost st (ARec (set_pos st p'))).
+    { intros p' Hlt Hle. cbn [StepPost]. unfold Inv, M. cbn [pos set_pos indents unind].
+      repeat split; try lia; eauto. }
+    assert (Hadv : forall t p' br, pos st < p' -> p' <= n -> ttype t <> TEOF ->
+               StepPost st (ARet (LTok t (mkL p' (indent st) br (unind st) (indents st) (lastEOL st))))).
+    { intros. cbn [StepPost]. apply Post_adv; auto. }
+    destruct (c =? 13)%N. { apply Hrec; lia. }
+    destruct (c =? 10)%N.
+    { destruct (B_scan is_space (S p1) eq_refl) as (k & Hk & _ & Hk2); [lia|]. rewrite Hk.
+      assert (Hp3 : S p1 + k <= n) by lia.
+      destruct (B_some (S p1 + k)) as (b3 & Hb3); [lia|]. rewrite Hb3.
+      destruct (b3 =? 10)%N. { apply Hrec; lia. }
+      set (ind := if (braces st =? 0) then k else indent st).
+      assert (Hcont : forall tp stk un l', stk = l' ++ [0] -> un + length l' <= unind st + length l + 1 ->
+        StepPost st (if (braces st =? 0) && negb (lastEOL st)
+                     then ARet (LTok (mkTok TEOL [] tp) (mkL (S p1 + k) ind (braces st) un stk (lastEOL st)))
+                     else ARec (mkL (S p1 + k) ind (braces st) un stk (lastEOL st)))).
+      { intros tp stk un l' -> Hun'. rewrite Hl in *.
+        destruct ((braces st =? 0) && negb (lastEOL st)); cbn [StepPost Post]; unfold Inv, M;
+          cbn [pos indents unind ttype tval]; rewrite ?Hl, ?app_length; cbn [length];
+          repeat split; try lia; eauto; intro HH; exfalso; revert HH; neof. }
+      destruct ((ind <? indent st) && (braces st =? 0)).
+      - rewrite Hl. destruct (pop_indents_spec ind l (unind st)) as (l' & un' & -> & Hpop).
+        destruct l' as [|top l'']; cbn [app].
+        + destruct (ind =? 0); [apply (Hcont _ _ _ []); [reflexivity|cbn [length] in *; lia]|exact I].
+        + destruct (ind =? top); [apply (Hcont _ _ _ (top :: l'')); [reflexivity|cbn [length] in *; lia]|exact I].
+      - destruct (negb (indent st =? ind)).
+        + apply (Hcont _ _ _ (ind :: l)); [rewrite Hl; reflexivity|cbn [length]; lia].
+        + apply (Hcont _ _ _ l); [auto|lia]. }
+    destruct (c =? 48)%N.
+    { destruct (b2 =? 111)%N eqn:Eo; cbn [StepPost]; apply consume_integer_ok; auto; try lia.
+      apply N.eqb_eq in Eo. apply Hb2'. lia. }
+    destruct (in_range 49 57 c). { cbn [StepPost]. apply consume_integer_ok; auto; lia. }
+    destruct (is_quote c). { cbn [StepPost]. apply consume_string_ok; auto; lia. }
+    destruct ((c =? 40)%N || (c =? 91)%N || (c =? 123)%N). { apply Hadv; try lia. neof. }
+    destruct ((c =? 41)%N || (c =? 93)%N || (c =? 125)%N). { apply Hadv; try lia. neof. }
+    assert (Hsingle : StepPost st (ARet (LTok (tok1 c p0) (set_pos st (S p1))))).
+    { apply (Hadv _ _ (braces st)); try lia. neof. }
+    assert (Hop : forall b', b' <> 0%N -> b2 = b' ->
+              StepPost st (ARet (LTok (mkTok TLexOperator [c; b2] p0) (set_pos st (S (S p1)))))).
+    { intros b' Hz ->. apply (Hadv _ _ (braces st)); try lia. neof. }
+    destruct ((c =? 61)%N || (c =? 33)%N || (c =? 43)%N || (c =? 60)%N || (c =? 62)%N).
+    { destruct (b2 =? 61)%N eqn:E; auto. apply N.eqb_eq in E. apply (Hop 61%N); auto. discriminate. }
+    destruct ((c =? 44)%N || (c =? 46)%N || (c =? 37)%N || (c =? 42)%N || (c =? 124)%N || (c =? 38)%N || (c =? 58)%N); auto.
+    destruct (c =? 47)%N.
+    { destruct (b2 =? 47)%N eqn:E; auto. apply N.eqb_eq in E. apply (Hop 47%N); auto. discriminate. }
+    destruct (c =? 35)%N.
+    { destruct (B_scan not_eol_nul (S p1) eq_refl) as (k & Hk & _ & Hk2); [lia|]. rewrite Hk. apply Hrec; lia. }
+    destruct (c =? 45)%N.
+    { destruct (is_digit b2); auto. cbn [StepPost]. apply consume_integer_ok; auto; lia. }
+    exact I.
+  Qed.
+
+  Lemma Post_rec st st' r :
+    Post st' r -> pos st <= pos st' -> pos st' <= n -> M st' <= M st -> Post st r.
+  Proof.
+    destruct r; cbn [Post]; auto. intros (H1 & H2 & H3 & H4 & H5 & H6) Hp Hn HM.
+    repeat split; auto; try lia; apply H4; auto.
+  Qed.
+
+  (* nextToken terminates within recursion depth n + 3 - pos and never indexes out of range *)
+  Lemma next_token_ok f : forall st, Inv st -> n + 3 <= pos st + f -> Post st (next_token isld B f st).
+  Proof.
+    induction f as [|f IH]; intros st HI Hf.
+    - destruct HI as (H & _). lia.
+    - cbn [next_token]. pose proof (token_step_ok st HI) as H.
+      destruct (token_step isld B st) as [r|st']; cbn [StepPost] in H; auto.
+      destruct H as (HI' & Hlt & Hle & HM).
+      apply (Post_rec st st'); try lia. apply IH; auto. lia.
+  Qed.
 End Buffer.
